@@ -189,3 +189,12 @@ func (s *Stream) SetLayoutFirstByte(b int) {
 		s.data = append([]byte{byte(b)}, d...)
 	}
 }
+
+// SetOverlongLine makes the i-th line (1-based) longer than bufio.Scanner's default buffer (64 KiB).
+func (s *Stream) SetOverlongLine(i int) {
+	lines := strings.Split(string(s.content()), "\n")
+	if i >= 1 && i <= len(lines) {
+		lines[i-1] += strings.Repeat("x", 70000)
+		s.data = []byte(strings.Join(lines, "\n"))
+	}
+}
